@@ -29,7 +29,7 @@ RULE = (
     "pickling, _mapping, _filter_on_values), proc (processors over valid+malformed ISO strings and every Python value kind), eutil "
     "(_distill_params_20/_distill_raw_params/tuplegetter over every argument shape), anon (anon_map/prefix_anon_map key sequences), result "
     "(IteratorResult fetch programs through _result_cy) - each executed in the pure build (this process) and in the compiled build (persistent child) "
-    "by identical interpreter code. Non-trivial: the program contains an op that reaches an explicit cython.compiled branch or a typed-argument "
+    "by identical interpreter code; xpickle: Row/RowMapping/list of Row/immutabledict pickled by each build (protocol 2-5) and loaded by the other. Non-trivial: the program contains an op that reaches an explicit cython.compiled branch or a typed-argument "
     "boundary (see _NT_OPS per family); distinct = canonical JSON of the program"
 )
 ASSUMPTIONS = [
@@ -39,6 +39,7 @@ ASSUMPTIONS = [
     "IdentitySet iteration order is compared (both builds are dict-backed; the source says 'the code assumes this class is ordered')",
     "private cdef attributes (_list, _members, type_, format_, _index) are not observed: they are not part of the Python-visible surface of the compiled classes",
     "a crash / hang / protocol error of the child interpreter is a harness error (exit 2), never a violation",
+    "known findings excluded by construction: C54's OrderedSet.symmetric_difference_update duplicates (same in both builds), tuple-subclass row data, copy/pickle of ImmutableDictBase subclasses, pure->compiled OrderedSet pickles",
 ]
 
 VERIF = os.path.dirname(os.path.dirname(os.path.abspath(__file__)))
@@ -212,6 +213,12 @@ def _artefact(fam, op, pe, ce, case, opd):
     # subclasses anon_map / prefix_anon_map (no __slots__) accept it.  Not part of any documented use.
     if fam == "anon" and op == "setattr" and cexc == "AttributeError" and "has no attribute" in cmsg:
         return "A8:no instance __dict__ on cdef class"
+    # A9: prefix_anon_map.__missing__ declares `anonymous_counter: int`: a bool put BY HAND into a counter slot (m["name"] = True) is
+    # formatted as the C integer ("name_1") by the compiled build and as the object ("name_True") by the pure build.  The library
+    # only ever stores its own int counters there.
+    if fam == "anon" and case["which"].startswith("prefix") and any(o[0] == "setitem" and len(o) > 3 and isinstance(o[3], bool) for o in case["ops"]) \
+            and pe[1] == "ret" and ce[1] in ("ret", "fx") and "_True" in json.dumps(pe) + json.dumps(ce):
+        return "A9:bool stored by hand in a prefix_anon_map counter slot"
     # A5: tuplegetter(*indexes: int) with non-int or beyond-ssize_t indexes: `_is_contiguous` reads them into Py_ssize_t and
     # `max_index: int` is typed, so the compiled build coerces / overflows where the pure build builds a getter that cannot work
     # on any sequence anyway.
@@ -361,6 +368,35 @@ def _mk_check(fam):
 
     check.__name__ = f"check_{fam}"
     return check
+
+
+def check_xpickle(case, ctx):
+    """cross-build pickles: an object pickled by the pure build must load in the compiled build (and vice versa) to the same
+    observable object ("... so that pickles with the Cy extension or without use the same Binary format", engine/_row_cy.py)"""
+    if case["what"] == "oset" and not case.get("pinned"):
+        # confirmed divergence C55/xpickle/oset/pure-to-compiled: the pure OrderedSet pickles its `_list` slot, which the compiled cdef class
+        # cannot restore (AttributeError); replaced by an immutabledict, the pinned replay keeps the OrderedSet
+        ctx.exclude("OrderedSet pickled by the pure build and loaded by the compiled build (known divergence)")
+        case = dict(case, what="imm")
+    ctx.note(case, True, classes=[case["what"], f"proto{case['proto']}", "procs" if case.get("procs") else "noprocs"])
+    child = _child_for(ctx)
+    pure_dump = json.loads(json.dumps(interp.run("xdump", case)))
+    comp_dump = child.run("xdump", case)
+    _compare("xpickle", case, pure_dump[1:], comp_dump[1:], ctx)  # descriptions of the fresh objects agree
+    desc = pure_dump[1][2]
+    for direction, hexs, loader in (("pure->compiled", pure_dump[0][2], lambda c: child.run("xload", c)),
+                                    ("compiled->pure", comp_dump[0][2], lambda c: json.loads(json.dumps(interp.run("xload", c))))):
+        got = loader({"hex": hexs, "ops": []})[0]
+        if got[1] != "ret" or got[2] != interp.Canon()(desc):
+            raise Violation(f"C55/xpickle/{case['what']}/{direction.replace('->', '-to-')}", f"{direction}: unpickled {got[1:]} but the pickled object was {desc}",
+                            observed=got, expected=desc)
+
+
+_xpickle_cases = st.fixed_dictionaries({
+    "what": st.sampled_from(["row", "row", "rowmapping", "rows", "imm", "oset"]), "data": st.lists(st.integers(0, 11), max_size=5),
+    "procs": st.one_of(st.none(), st.lists(st.sampled_from(["none", "str", "ident"]), min_size=1, max_size=5)), "proto": st.integers(2, 5),
+    "ops": st.just([]),
+})
 
 
 # ------------------------------------------------------------------ generators
@@ -660,4 +696,5 @@ _STRATS = {
 
 
 def subs(tier):
-    return [Generated(fam, _mk_check(fam), strategy=_STRATS[fam](), quick=2000, thorough=200000 if fam != "result" else 100000) for fam in _STRATS]
+    return [Generated(fam, _mk_check(fam), strategy=_STRATS[fam](), quick=2000, thorough=25000) for fam in _STRATS] + [
+        Generated("xpickle", check_xpickle, strategy=_xpickle_cases, quick=400, thorough=5000)]
